@@ -1,6 +1,7 @@
 package scen
 
 import (
+	"bytes"
 	"fmt"
 
 	sdk "github.com/cosmos/cosmos-sdk/types"
@@ -211,6 +212,19 @@ func Roles() Spec {
 			Msg("seed:resolver private B", &data.MsgDefineResolver{Definer: B.String(), ResolverUrl: "https://b.example", Public: false}),
 			Msg("seed:resolver public B", &data.MsgDefineResolver{Definer: B.String(), ResolverUrl: "https://pub.example", Public: true}),
 		}
+	}
+	// hand-overs to a 32-byte account (group policy / interchain account style address) by the role
+	// holders, and an issuer removal whose list starts with an account that is no issuer
+	x32 := sdk.AccAddress(bytes.Repeat([]byte{0x32}, 32))
+	for _, a := range []*explore.Action{
+		Msg("UpdateCurator(A,NCT->X32)", &baskettypes.MsgUpdateCurator{Curator: A.String(), Denom: NCT, NewCurator: x32.String()}),
+		Msg("UpdateClassAdmin(A,C01->X32)", &basetypes.MsgUpdateClassAdmin{Admin: A.String(), ClassId: "C01", NewAdmin: x32.String()}),
+		Msg("UpdateProjectAdmin(A,C01-001->X32)", &basetypes.MsgUpdateProjectAdmin{Admin: A.String(), ProjectId: "C01-001", NewAdmin: x32.String()}),
+		Msg("UpdateClassIssuers(A,C01,-D,-A)", &basetypes.MsgUpdateClassIssuers{Admin: A.String(), ClassId: "C01", RemoveIssuers: []string{D.String(), A.String()}}),
+		Msg("UpdateClassIssuers(A,C01,+X32,+C)", &basetypes.MsgUpdateClassIssuers{Admin: A.String(), ClassId: "C01", AddIssuers: []string{x32.String(), C.String()}}),
+	} {
+		evs = append(evs, fix(a))
+		exp[a.Label] = true
 	}
 	plain := PreparedSeed("prepared+resolvers", seedActs()...)
 	plain.Name = "prepared+resolvers"
